@@ -216,9 +216,9 @@ Section Fine.
             match read_histories T teqb hr w1 (p_nodes pack) with
             | None => build teqb hc hl hr w rules_path goal
             | Some hists =>
-                let (blobs, t') := take_blobs hc t (worker_paths pack) in
+                let (blobs, t') := take_blobs T hc t (worker_paths pack) in
                 let n := nworkers pack in
-                let st0 := mk_fn w1 (repeat (mk_wst WWait None []) n) (repeat None n) (repeat None n) [] in
+                let st0 := mk_fn (write_table T w1 t') (repeat (mk_wst WWait None []) n) (repeat None n) (repeat None n) [] in
                 let st1 := frun pack blobs hists choices st0 in
                 let results := flat_map (fun o => match o with Some r => [r] | None => [] end) (fn_res st1) in
                 let js := fold_left (join_one T teqb hr) results (mk_js T (fn_world st1) t' [] []) in
